@@ -71,6 +71,7 @@ def make_X(rng, n, p, kind="gauss", rho=0.5, density=1.0):
         X = rng.standard_normal((n, p)) + rng.uniform(-3, 3, size=p)
     elif kind == "centered":
         X = rng.standard_normal((n, p)) * (10.0 ** rng.uniform(-1, 1, size=p))
+        X = X - X.mean(axis=0)          # the usual preprocessing: the optimal intercept is then the mean of the target
     else:
         raise KeyError(kind)
     if density < 1.0:
@@ -93,7 +94,9 @@ def make_target(rng, X, kind, w_true=None, noise=0.5, n_tasks=3, ties=True):
     z = X @ w_true
     sc = max(norm(z) / np.sqrt(n), 1e-3)
     if kind == "real":
-        return z + noise * sc * rng.standard_normal(n) + rng.uniform(-1, 1)
+        # offsets on three scales: a tiny optimal intercept (errors of its size in the model fit look like progress), an
+        # ordinary one, and one that dominates the signal
+        return z + noise * sc * rng.standard_normal(n) + rng.uniform(-1, 1) * float(rng.choice([0.005, 0.05, 1.0, 1.0, 10.0]))
     if kind == "pm1":
         y = np.sign(z / sc + noise * rng.standard_normal(n))
         y[y == 0] = 1.0
@@ -123,7 +126,7 @@ def make_target(rng, X, kind, w_true=None, noise=0.5, n_tasks=3, ties=True):
         W[rng.choice(p, k, replace=False)] = rng.standard_normal((k, n_tasks))
         Z = X @ W
         return np.asfortranarray(Z + noise * max(norm(Z) / np.sqrt(Z.size), 1e-3) * rng.standard_normal(Z.shape)
-                                 + rng.uniform(-1, 1, size=n_tasks))
+                                 + rng.uniform(-1, 1, size=n_tasks) * float(rng.choice([0.005, 0.05, 1.0, 1.0, 10.0])))
     raise KeyError(kind)
 
 
